@@ -60,6 +60,10 @@ pub struct C03Replay {
     pub residents: Vec<String>,
     pub case: Case,
     pub entry: Entry,
+    /// earlier parses into the same store without which the case does not fail (what a parse
+    /// leaves in the name / namespace / prefix tables can matter to a later one)
+    #[serde(default)]
+    pub history: Vec<(Case, Entry)>,
 }
 
 // ------------------------------------------------------------------ token spans of generator output
@@ -244,6 +248,10 @@ fn structural_cases(text: &str, out: &mut Vec<Case>) {
                             let s1 = splice(text, last.1 .1 + 1, 0, &format!(" zi:{}=\"dup\"", l));
                             let s2 = splice(&s1, root.name.1, 0, &format!(" xmlns:zi=\"{}\"", esc));
                             push("duplicate-attribute-by-expanded-name-inherited-prefix", s2, Expect::Reject);
+                            // both prefixes inherited: nothing is declared on the element itself
+                            let s1 = splice(text, t.name.1, 0, " zi:dup2=\"1\" zj:dup2=\"2\"");
+                            let s2 = splice(&s1, root.name.1, 0, &format!(" xmlns:zi=\"{}\" xmlns:zj=\"{}\"", esc, esc));
+                            push("duplicate-attribute-by-expanded-name-both-prefixes-inherited", s2, Expect::Reject);
                         }
                     }
                 }
@@ -345,6 +353,20 @@ fn structural_cases(text: &str, out: &mut Vec<Case>) {
             push("xml-prefix-declared-explicitly", splice(text, t.name.1, 0, " xmlns:xml=\"http://www.w3.org/XML/1998/namespace\""), Expect::Accept);
             push("xml-prefix-declared-twice", splice(text, t.name.1, 0, " xmlns:xml=\"http://www.w3.org/XML/1998/namespace\" xmlns:xml=\"http://www.w3.org/XML/1998/namespace\""), Expect::Reject);
             push("xml-prefix-declared-twice", splice(text, t.name.1, 0, " xmlns:xml=\"urn:zz\" xmlns:xml=\"http://www.w3.org/XML/1998/&#110;amespace\""), Expect::Reject);
+        }
+        // alias duplicates that do not depend on what the element itself declares: both prefixes
+        // declared here, one of them the built-in xml prefix, namespace names equal only after
+        // attribute-value normalisation
+        push("duplicate-attribute-by-expanded-name-xml-alias", splice(text, t.name.1, 0, " xmlns:zx=\"http://www.w3.org/XML/1998/namespace\" zx:lang=\"a\" xml:lang=\"b\""), Expect::Reject);
+        for ws in ["\t", "\n", "\r", "\r\n"] {
+            push("duplicate-attribute-namespace-names-equal-after-normalisation", splice(text, t.name.1, 0, &format!(" xmlns:zm=\"urn:x y\" xmlns:zn=\"urn:x{}y\" zm:k=\"1\" zn:k=\"2\"", ws)), Expect::Reject);
+        }
+        // a prefix declared twice with another declaration in between, in an order in which the
+        // ids of the prefixes do not ascend (ze was registered before zf by the case before)
+        push("register-two-prefixes", splice(text, t.name.1, 0, " xmlns:ze=\"urn:e\" xmlns:zf=\"urn:f\""), Expect::Accept);
+        push("prefix-declared-twice-not-adjacent", splice(text, t.name.1, 0, " xmlns:zf=\"urn:1\" xmlns:ze=\"urn:2\" xmlns:zf=\"urn:3\""), Expect::Reject);
+        if !text[t.start..t.end].contains(" xmlns=") {
+            push("prefix-declared-twice-around-default", splice(text, t.name.1, 0, " xmlns:zf=\"urn:1\" xmlns=\"urn:dd\" xmlns:zf=\"urn:3\""), Expect::Any);
         }
         push("attribute-without-value", splice(text, t.name.1, 0, " novalue"), Expect::Reject);
         push("unquoted-attribute", splice(text, t.name.1, 0, " a1=v"), Expect::Reject);
@@ -746,6 +768,10 @@ fn judge(st: &mut Store, case: &Case, entry: Entry, stats: &mut Stats) -> Result
 fn run_replay(r: &C03Replay, stats: &mut Stats) -> Option<Violation> {
     hashseam::reseed(r.hash_seed);
     let mut st = new_store(&r.residents, r.cons_off);
+    let mut scratch = Stats::default();
+    for (c, e) in &r.history {
+        let _ = judge(&mut st, c, *e, &mut scratch);
+    }
     judge(&mut st, &r.case, r.entry, stats).err()
 }
 
@@ -816,12 +842,20 @@ impl PropEngine for C03Engine {
         }
         let mut st = new_store(&residents, cons_off);
         let mut digest = Fnv::new();
-        for case in &cases {
+        let mut done: Vec<(usize, Entry)> = vec![];
+        for (ci, case) in cases.iter().enumerate() {
             for entry in ENTRIES {
                 if let Err(viol) = judge(&mut st, case, entry, stats) {
-                    let rep = C03Replay { hash_seed, cons_off, residents: residents.clone(), case: case.clone(), entry };
+                    let mut rep = C03Replay { hash_seed, cons_off, residents: residents.clone(), case: case.clone(), entry, history: vec![] };
+                    // does it fail on its own? otherwise everything the store has seen before comes along
+                    // (the minimiser thins it out)
+                    let mut scratch = Stats::default();
+                    if !matches!(run_replay(&rep, &mut scratch), Some(ref v2) if v2.class == viol.class) {
+                        rep.history = done.iter().map(|(i, e)| (cases[*i].clone(), *e)).collect();
+                    }
                     return Some(EngineFailure { violation: viol, replay: serde_json::to_value(&rep).unwrap() });
                 }
+                done.push((ci, entry));
             }
             let mut h = Fnv::new();
             h.bytes(&case.bytes);
@@ -833,13 +867,13 @@ impl PropEngine for C03Engine {
         }
         // once the faults have stopped the store is still usable
         if let Err(viol) = check_residents(&st, "after the fault campaign") {
-            let rep = C03Replay { hash_seed, cons_off, residents: residents.clone(), case: cases[0].clone(), entry: Entry::Parse };
+            let rep = C03Replay { hash_seed, cons_off, residents: residents.clone(), case: cases[0].clone(), entry: Entry::Parse, history: vec![] };
             return Some(EngineFailure { violation: viol, replay: serde_json::to_value(&rep).unwrap() });
         }
         match real_call(|| st.x.parse(&source)) {
             Ok(Ok(_)) => {}
             other => {
-                let rep = C03Replay { hash_seed, cons_off, residents: residents.clone(), case: cases[0].clone(), entry: Entry::Parse };
+                let rep = C03Replay { hash_seed, cons_off, residents: residents.clone(), case: cases[0].clone(), entry: Entry::Parse, history: vec![] };
                 return Some(EngineFailure {
                     violation: v("failed-parse-damaged-store", format!("after the fault campaign the undamaged document no longer parses: {:?}", other.map(|r| r.map(|_| ()).map_err(|e| format!("{:?}", e))).map_err(|_| "panic"))),
                     replay: serde_json::to_value(&rep).unwrap(),
@@ -858,6 +892,26 @@ impl PropEngine for C03Engine {
         let class = f.violation.class;
         let mut viol = f.violation.clone();
         let mut st = Stats::default();
+        // thin out the history: halves, quarters, ... single entries
+        if !r.history.is_empty() {
+            let mut chunk = r.history.len();
+            while chunk >= 1 {
+                let mut i = 0;
+                while i < r.history.len() {
+                    let mut c = r.clone();
+                    let end = (i + chunk).min(c.history.len());
+                    c.history.drain(i..end);
+                    match run_replay(&c, &mut st) {
+                        Some(v2) if v2.class == class => {
+                            r = c;
+                            viol = v2;
+                        }
+                        _ => i += chunk,
+                    }
+                }
+                chunk /= 2;
+            }
+        }
         // fewer residents
         while !r.residents.is_empty() {
             let mut c = r.clone();
